@@ -33,6 +33,7 @@ from dask_expr._expr import (
     Expr,
     Index,
     Projection,
+    RenameAxis,
     RenameFrame,
     RenameSeries,
     ResetIndex,
@@ -198,7 +199,8 @@ class ShuffleReduce(Expr):
                 chunked = ResetIndex(self.frame, drop=False, name=self.frame.name)
             else:
                 chunked = ResetIndex(self.frame, drop=False)
-            if split_by == [None]:
+            unnamed_index = split_by == [None]
+            if unnamed_index:
                 split_by = ["index"]
         elif is_index_like(self.frame._meta) or is_series_like(self.frame._meta):
             chunked = ToFrame(self.frame, name=columns[0])
@@ -244,6 +246,9 @@ class ShuffleReduce(Expr):
         # Reset the index if we we used it for shuffling
         if split_by_index:
             shuffled = SetIndexBlockwise(shuffled, split_by, True, None)
+            if unnamed_index:
+                # undo the placeholder name of an unnamed index
+                shuffled = RenameAxis(shuffled, None)
 
         # Convert back to Series if necessary
         if self.shuffle_by_index is not False:
@@ -1424,10 +1429,6 @@ class ValueCounts(ReductionConstantDim):
             return func(_concat(inputs), **kwargs)
 
     @property
-    def split_by(self):
-        return self.frame._meta.name
-
-    @property
     def chunk_kwargs(self):
         return {"sort": self.sort, "ascending": self.ascending, "dropna": self.dropna}
 
@@ -1451,7 +1452,11 @@ class ValueCounts(ReductionConstantDim):
 
     @functools.cached_property
     def split_by(self):
-        return self.frame._meta.name
+        # The counted values are the index of every chunk. An unnamed series
+        # leaves that index unnamed: ``[None]`` asks ShuffleReduce to shuffle on
+        # the index (plain ``None`` would make it shuffle on the counts)
+        name = self.frame._meta.name
+        return [None] if name is None else name
 
     def _divisions(self):
         if self.sort:
